@@ -92,7 +92,7 @@ theorem disCond_of_assoc {sk d ign s} (hd : s.dh = d) (hi : ign ≠ some s.h) (h
   unfold disCond
   simp [hd, ha, hi]
 
-theorem disOne_marked {sk d ign nv now v s} (hm : Marked v s) : disOne sk d ign nv now s = s := by
+theorem disOne_marked {sk d ign nv now v t s} (hm : Marked v t s) : disOne sk d ign nv now s = s := by
   apply disOne_of_not_cond
   unfold disCond
   rcases hm with ⟨h1, h2, _⟩
@@ -106,27 +106,27 @@ theorem mem_disHandles {sk d ign} {w : List CState} {s : CState} (hs : s ∈ w) 
 /-! ### the invariant of one operation -/
 
 /-- what holds for the working table `w` of an operation that started from table `T` and commits as version `nv` -/
-structure Post (env : Env) (T : List CState) (nv : Nat) (w : List CState) : Prop where
+structure Post (env : Env) (T : List CState) (nv now : Nat) (w : List CState) : Prop where
   nodup : (w.map (·.h)).Nodup
   not_descr : ∀ s ∈ w, s.h ∉ env.handles
   uniq : ∀ a ∈ w, ∀ b ∈ w, a.dh = b.dh → a.assoc = .assoc → b.assoc = .assoc → a.h = b.h
   assoc_open : ∀ s ∈ w, s.assoc = .assoc → s.unbindV = none
   keep : ∀ a ∈ T, ∃ b ∈ w, b.h = a.h
-  unb : ∀ a ∈ T, a.assoc = .assoc → ∀ b ∈ w, b.h = a.h → b.assoc ≠ .assoc → Marked nv b
-  bnd : ∀ b ∈ w, b.assoc = .assoc → (∀ a ∈ T, a.h = b.h → a.assoc ≠ .assoc) → b.bindV = some nv ∧ b.bindT ≠ none
+  unb : ∀ a ∈ T, a.assoc = .assoc → ∀ b ∈ w, b.h = a.h → b.assoc ≠ .assoc → Marked nv now b
+  bnd : ∀ b ∈ w, b.assoc = .assoc → (∀ a ∈ T, a.h = b.h → a.assoc ≠ .assoc) → b.bindV = some nv ∧ b.bindT = some now
 
 /-- invariant of the loop over the proposals -/
-structure StepInv (env : Env) (T : List CState) (fresh0 nv : Nat) (k : Work) : Prop
-    extends Post env T nv k.w where
+structure StepInv (env : Env) (T : List CState) (fresh0 nv now : Nat) (k : Work) : Prop
+    extends Post env T nv now k.w where
   lt_fresh : ∀ s ∈ k.w, s.h < k.fresh
   fresh_le : fresh0 ≤ k.fresh
   untouched : ∀ b ∈ k.w, b.h ∉ k.touched → b ∈ T
 
-theorem StepInv.init {env : Env} {T : List CState} {fresh0 nv : Nat}
+theorem StepInv.init {env : Env} {T : List CState} {fresh0 nv now : Nat}
     (hn : (T.map (·.h)).Nodup) (hlt : ∀ s ∈ T, s.h < fresh0) (hnd : ∀ s ∈ T, s.h ∉ env.handles)
     (hu : ∀ a ∈ T, ∀ b ∈ T, a.dh = b.dh → a.assoc = .assoc → b.assoc = .assoc → a.h = b.h)
     (ho : ∀ s ∈ T, s.assoc = .assoc → s.unbindV = none) :
-    StepInv env T fresh0 nv { w := T, touched := [], fresh := fresh0 } where
+    StepInv env T fresh0 nv now { w := T, touched := [], fresh := fresh0 } where
   nodup := hn
   not_descr := hnd
   uniq := hu
@@ -139,19 +139,19 @@ theorem StepInv.init {env : Env} {T : List CState} {fresh0 nv : Nat}
   untouched := fun _ hb _ => hb
 
 /-- a step that rewrites the states pointwise (handles and descriptor handles stay) -/
-theorem StepInv.map {env : Env} {T : List CState} {fresh0 nv : Nat} {k : Work}
-    (inv : StepInv env T fresh0 nv k) (f : CState → CState) (hs : List Handle)
+theorem StepInv.map {env : Env} {T : List CState} {fresh0 nv now : Nat} {k : Work}
+    (inv : StepInv env T fresh0 nv now k) (f : CState → CState) (hs : List Handle)
     (fh : ∀ s, (f s).h = s.h) (fdh : ∀ s, (f s).dh = s.dh)
     (fchg : ∀ s ∈ k.w, s.h ∉ hs → f s = s)
     (fopen : ∀ s ∈ k.w, (s.assoc = .assoc → s.unbindV = none) → (f s).assoc = .assoc → (f s).unbindV = none)
     (funiq : ∀ a ∈ k.w, ∀ b ∈ k.w, a.dh = b.dh → (f a).assoc = .assoc → (f b).assoc = .assoc →
       (a.assoc = .assoc → b.assoc = .assoc → a.h = b.h) → a.h = b.h)
-    (funb : ∀ s ∈ k.w, (∃ a ∈ T, a.h = s.h ∧ a.assoc = .assoc) → (s.assoc ≠ .assoc → Marked nv s) →
-      (f s).assoc ≠ .assoc → Marked nv (f s))
+    (funb : ∀ s ∈ k.w, (∃ a ∈ T, a.h = s.h ∧ a.assoc = .assoc) → (s.assoc ≠ .assoc → Marked nv now s) →
+      (f s).assoc ≠ .assoc → Marked nv now (f s))
     (fbnd : ∀ s ∈ k.w, (∀ a ∈ T, a.h = s.h → a.assoc ≠ .assoc) →
-      (s.assoc = .assoc → s.bindV = some nv ∧ s.bindT ≠ none) →
-      (f s).assoc = .assoc → (f s).bindV = some nv ∧ (f s).bindT ≠ none) :
-    StepInv env T fresh0 nv { w := k.w.map f, touched := k.touched ++ hs, fresh := k.fresh } where
+      (s.assoc = .assoc → s.bindV = some nv ∧ s.bindT = some now) →
+      (f s).assoc = .assoc → (f s).bindV = some nv ∧ (f s).bindT = some now) :
+    StepInv env T fresh0 nv now { w := k.w.map f, touched := k.touched ++ hs, fresh := k.fresh } where
   nodup := by
     have : (k.w.map f).map (·.h) = k.w.map (·.h) := by
       rw [List.map_map]; apply List.map_congr_left; intro s _; exact fh s
@@ -199,14 +199,14 @@ theorem StepInv.map {env : Env} {T : List CState} {fresh0 nv : Nat} {k : Work}
     exact inv.untouched s hs' hnt.1
 
 /-- a step that adds a new state with the next fresh handle -/
-theorem StepInv.push {env : Env} {T : List CState} {fresh0 nv : Nat} {k : Work}
-    (inv : StepInv env T fresh0 nv k) (s : CState)
+theorem StepInv.push {env : Env} {T : List CState} {fresh0 nv now : Nat} {k : Work}
+    (inv : StepInv env T fresh0 nv now k) (s : CState)
     (hTlt : ∀ a ∈ T, a.h < fresh0) (henv : ∀ d ∈ env.handles, d < fresh0)
     (hh : s.h = k.fresh)
     (hopen : s.assoc = .assoc → s.unbindV = none)
     (huniq : s.assoc = .assoc → ∀ b ∈ k.w, b.dh = s.dh → b.assoc ≠ .assoc)
-    (hbnd : s.assoc = .assoc → s.bindV = some nv ∧ s.bindT ≠ none) :
-    StepInv env T fresh0 nv { w := k.w ++ [s], touched := k.touched ++ [s.h], fresh := k.fresh + 1 } where
+    (hbnd : s.assoc = .assoc → s.bindV = some nv ∧ s.bindT = some now) :
+    StepInv env T fresh0 nv now { w := k.w ++ [s], touched := k.touched ++ [s.h], fresh := k.fresh + 1 } where
   nodup := by
     rw [List.map_append, List.nodup_append]
     refine ⟨inv.nodup, by simp, ?_⟩
@@ -288,8 +288,8 @@ section branches
 variable {env : Env} {T : List CState} {fresh0 nv now : Nat} {k : Work} {p old : CState}
 
 /-- update: associated → `Dis` -/
-theorem inv_unbind (inv : StepInv env T fresh0 nv k) (hpd : p.assoc = .dis) :
-    StepInv env T fresh0 nv
+theorem inv_unbind (inv : StepInv env T fresh0 nv now k) (hpd : p.assoc = .dis) :
+    StepInv env T fresh0 nv now
       { w := k.w.map (updF (fun s => { copyFrom p s with unbindV := some nv, unbindT := some now }) p.h id),
         touched := k.touched ++ [p.h], fresh := k.fresh } := by
   refine StepInv.map inv _ [p.h] ?_ ?_ ?_ ?_ ?_ ?_ ?_
@@ -319,10 +319,10 @@ theorem inv_unbind (inv : StepInv env T fresh0 nv k) (hpd : p.assoc = .dis) :
     · rw [updF_ne hs] at ha ⊢; exact ih ha
 
 /-- update: neither associated before nor after, or associated before and after -/
-theorem inv_plain (hT : (T.map (·.h)).Nodup) (inv : StepInv env T fresh0 nv k)
+theorem inv_plain (hT : (T.map (·.h)).Nodup) (inv : StepInv env T fresh0 nv now k)
     (hold : old ∈ k.w) (hoh : old.h = p.h) (hnt : p.h ∉ k.touched)
     (hiff : old.assoc = .assoc ↔ p.assoc = .assoc) :
-    StepInv env T fresh0 nv
+    StepInv env T fresh0 nv now
       { w := k.w.map (updF (copyFrom p) p.h id), touched := k.touched ++ [p.h], fresh := k.fresh } := by
   have hso : ∀ s ∈ k.w, s.h = p.h → s = old := fun s hs h => eq_of_h_eq inv.nodup hs hold (h.trans hoh.symm)
   have holdT : old ∈ T := inv.untouched old hold (hoh ▸ hnt)
@@ -372,9 +372,9 @@ theorem inv_plain (hT : (T.map (·.h)).Nodup) (inv : StepInv env T fresh0 nv k)
     · rw [updF_ne hs] at ha ⊢; exact ih ha
 
 /-- pointwise facts about `disOne` on a state of the working table -/
-theorem disOne_unb {sk d ign} (inv : StepInv env T fresh0 nv k) {s : CState} (hsw : s ∈ k.w)
-    (ih : s.assoc ≠ .assoc → Marked nv s) (ha : (disOne sk d ign nv now s).assoc ≠ .assoc) :
-    Marked nv (disOne sk d ign nv now s) := by
+theorem disOne_unb {sk d ign} (inv : StepInv env T fresh0 nv now k) {s : CState} (hsw : s ∈ k.w)
+    (ih : s.assoc ≠ .assoc → Marked nv now s) (ha : (disOne sk d ign nv now s).assoc ≠ .assoc) :
+    Marked nv now (disOne sk d ign nv now s) := by
   by_cases hsa : s.assoc = .assoc
   · cases hc : disCond sk d ign s
     · rw [disOne_of_not_cond hc] at ha; exact absurd hsa ha
@@ -384,10 +384,10 @@ theorem disOne_unb {sk d ign} (inv : StepInv env T fresh0 nv k) {s : CState} (hs
   · rw [disOne_marked (ih hsa)]; exact ih hsa
 
 /-- update: not associated → associated; the other states of the descriptor are disassociated -/
-theorem inv_bind (inv : StepInv env T fresh0 nv k)
+theorem inv_bind (inv : StepInv env T fresh0 nv now k)
     (hold : old ∈ k.w) (hoh : old.h = p.h) (hodh : old.dh = p.dh) (hpa : p.assoc = .assoc)
     (hou : old.unbindV = none) :
-    StepInv env T fresh0 nv
+    StepInv env T fresh0 nv now
       { w := k.w.map (updF (fun s => { copyFrom p s with bindV := some nv, bindT := some now }) p.h
                         (disOne true p.dh (some p.h) nv now)),
         touched := k.touched ++ (disHandles true p.dh (some p.h) k.w ++ [p.h]), fresh := k.fresh } := by
@@ -446,8 +446,8 @@ theorem inv_bind (inv : StepInv env T fresh0 nv k)
       rw [h1] at ha ⊢; exact ih ha
 
 /-- all states of descriptor `d` are disassociated (`disassociate_all` without an ignored handle) -/
-theorem inv_dis (sk : Bool) (d : Handle) (inv : StepInv env T fresh0 nv k) :
-    StepInv env T fresh0 nv
+theorem inv_dis (sk : Bool) (d : Handle) (inv : StepInv env T fresh0 nv now k) :
+    StepInv env T fresh0 nv now
       { w := k.w.map (disOne sk d none nv now), touched := k.touched ++ disHandles sk d none k.w, fresh := k.fresh } := by
   refine StepInv.map inv _ _ ?_ ?_ ?_ ?_ ?_ ?_ ?_
   · intro s; simp
@@ -485,7 +485,7 @@ end branches
 
 theorem propStep_inv {env : Env} {T : List CState} {fresh0 nv now : Nat} {k k' : Work} {p : CState}
     (hT : (T.map (·.h)).Nodup) (hTlt : ∀ a ∈ T, a.h < fresh0) (henv : ∀ d ∈ env.handles, d < fresh0)
-    (inv : StepInv env T fresh0 nv k) (h : propStep env nv now k p = .ok k') : StepInv env T fresh0 nv k' := by
+    (inv : StepInv env T fresh0 nv now k) (h : propStep env nv now k p = .ok k') : StepInv env T fresh0 nv now k' := by
   unfold propStep at h
   split at h
   · cases h
@@ -550,7 +550,7 @@ theorem propStep_inv {env : Env} {T : List CState} {fresh0 nv now : Nat} {k k' :
 theorem propLoop_inv {env : Env} {T : List CState} {fresh0 nv now : Nat}
     (hT : (T.map (·.h)).Nodup) (hTlt : ∀ a ∈ T, a.h < fresh0) (henv : ∀ d ∈ env.handles, d < fresh0)
     (ps : List CState) {k k' : Work}
-    (inv : StepInv env T fresh0 nv k) (h : propLoop env nv now k ps = .ok k') : StepInv env T fresh0 nv k' := by
+    (inv : StepInv env T fresh0 nv now k) (h : propLoop env nv now k ps = .ok k') : StepInv env T fresh0 nv now k' := by
   induction ps generalizing k with
   | nil => simp [propLoop] at h; exact h ▸ inv
   | cons p ps ih =>
@@ -562,8 +562,8 @@ theorem propLoop_inv {env : Env} {T : List CState} {fresh0 nv now : Nat}
 
 /-! ### commit and the two operations -/
 
-theorem Post.mapCore {env : Env} {T : List CState} {nv : Nat} {w : List CState} (post : Post env T nv w)
-    (f : CState → CState) (hf : ∀ s, SameCore (f s) s) : Post env T nv (w.map f) where
+theorem Post.mapCore {env : Env} {T : List CState} {nv now : Nat} {w : List CState} (post : Post env T nv now w)
+    (f : CState → CState) (hf : ∀ s, SameCore (f s) s) : Post env T nv now (w.map f) where
   nodup := by
     have : (w.map f).map (·.h) = w.map (·.h) := by
       rw [List.map_map]; apply List.map_congr_left; intro s _; exact (hf s).1
@@ -605,7 +605,7 @@ theorem bumpSv_fresh {tab : List CState} {t : List Handle} {s : CState} (h : ∀
 
 /-- result of one operation on a well-formed state -/
 structure StepOk (env : Env) (st st' : St) : Prop where
-  post : Post env st.tab st'.ver st'.tab
+  post : Post env st.tab st'.ver st.clock st'.tab
   lt_fresh : ∀ s ∈ st'.tab, s.h < st'.fresh
   fresh_le : st.fresh ≤ st'.fresh
   ver : (st'.tab = st.tab ∧ st'.ver = st.ver) ∨ st'.ver = st.ver + 1
@@ -649,8 +649,8 @@ theorem setLocation_ok {env : Env} {st : St} (hwf : WF env st) (loc : Nat) (dh :
       · rename_i ddv _
         split
         · exact StepOk.refl' hwf rfl rfl rfl
-        · have inv0 := StepInv.init (env := env) (nv := st.ver + 1) hwf.nodup hwf.lt_fresh hwf.not_descr hwf.uniq hwf.assoc_open
-          have inv1 := inv_dis (now := st.clock) false d inv0
+        · have inv0 := StepInv.init (env := env) (nv := st.ver + 1) (now := st.clock) hwf.nodup hwf.lt_fresh hwf.not_descr hwf.uniq hwf.assoc_open
+          have inv1 := inv_dis false d inv0
           have inv2 := StepInv.push inv1
             { h := st.fresh, dh := d, dv := ddv, sv := 0, body := loc, assoc := .assoc,
               bindV := some (st.ver + 1), unbindV := none, bindT := some st.clock, unbindT := none }
